@@ -594,7 +594,7 @@ func runC18(c *lib.Ctx) {
 	}
 	sort.Strings(avoided)
 	c.Ev.Coverage["composite_avoids"] = avoided
-	c.Ev.Coverage["rule"] = "cases = (document, write options) / (document) / (document, op sequence <= 6) / (Go value); sweep = single-cause cells (one leaf kind x placement x writer mode; one op x one or two step path x small document), seed independent; non-trivial = path length >= 2 or container nesting >= 2; distinct by case text"
+	c.Ev.Coverage["rule"] = "cases = (document, model layout, write option lists: JSON and SEN text in both directions, stream destination, bag-compare) / (document: bag-native and back) / (document, op sequence <= 6) / (Go value: Simplify(SimpleObject) and ObjectToBag(SimpleObject)) / (Lisp value into a bag) / (documents through a multi-document entry point) / (document: scan) / (history of settings, document, entry) / (bad text, entry, valid documents through every entry) / (document parsed twice and a third time through 16 entries, edit at depth 1..3); sweep = single-cause cells (one leaf kind x placement x writer mode; one op x one or two step path x small document; path shape x value kind incl. null x depth 1..3 x path form; one bad text x entry; one Lisp value x entry; one document x entry x edit depth), seed independent; non-trivial = path length >= 2 or container nesting >= 2 or two or more documents; distinct by case text"
 }
 
 // randomMultiCase: 1..5 documents through one of the entry points that hand out bags.
